@@ -55,6 +55,10 @@ def qop : QOp → Json
   | .sgate p m => jarr [Json.str "Sgate", jnat p, natList [m]]
   | .dgate p m => jarr [Json.str "Dgate", jnat p, natList [m]]
   | .rgate p m => jarr [Json.str "Rgate", jnat p, natList [m]]
+  | .s2gate p a b => jarr [Json.str "S2gate", jnat p, natList [a, b]]
+  | .fock p m => jarr [Json.str "Fock", jnat p, natList [m]]
+  | .loss m => jarr [Json.str "LossChannel", jnat 0, natList [m]]
+  | .measureFock ms => jarr [Json.str "MeasureFock", jnat 0, natList ms]
 
 def getTable (j : Json) : R (List Nat → Rat) := do
   let a ← getArr j "table"
@@ -205,6 +209,42 @@ def handler (op : String) (j : Json) : Option (R Json) :=
     pure <| Json.mkObj [("N", jarr (rng.map fun i => jarr (rng.map fun l => jCx (st.N i l)))),
       ("M", jarr (rng.map fun i => jarr (rng.map fun l => jCx (st.M i l)))),
       ("mean", jarr (rng.map fun i => jCx (st.mean i)))]
+  | "train.haf" => some do
+    let A ← getMat j "A"
+    let pat ← getNatList j "pattern"
+    pure <| Json.mkObj [("idx", natList (expand pat 0)), ("haf", jrat (haf A (expand pat 0))),
+      ("weight", jrat (gbsWeight A pat))]
+  | "train.sampleops" => some do
+    let n ← getNat j "n"
+    let loss ← getBool j "loss"
+    let anyT := getBoolD j "anyT" true
+    match (← getStr j "kind") with
+    | "vibsample" => pure <| Json.mkObj [("ops", jarr ((vibSampleOps n anyT loss).map qop)),
+        ("modes", jnat (vibSampleModes n anyT)), ("pad", jnat (vibSamplePad n anyT))]
+    | "dynfock" => pure <| Json.mkObj [("ops", jarr ((dynFockOps n loss).map qop)), ("modes", jnat n), ("pad", jnat 0)]
+    | "dyntmsv" => pure <| Json.mkObj [("ops", jarr ((dynTmsvOps n loss).map qop)), ("modes", jnat (2 * n)), ("pad", jnat 0)]
+    | "dyncoherent" => pure <| Json.mkObj [("ops", jarr ((dynCoherentOps n loss).map qop)), ("modes", jnat n), ("pad", jnat 0)]
+    | k => throw s!"train.sampleops: unknown kind {k}"
+  | "train.energy" => some do
+    pure <| jrat (energy (← getNatList j "s") (← getVec j "wp") (← getVec j "w"))
+  | "train.dusch" => some do
+    let a ← getNat j "a"
+    let M ← getNat j "M"
+    let Lf ← getMat j "Lf"
+    let Li ← getMat j "Li"
+    let sm ← getVec j "sm"
+    let ri ← getVec j "ri"
+    let rf ← getVec j "rf"
+    let linv ← getVec j "linv"
+    pure <| Json.mkObj [("U", jmat M M (duschU a Lf Li)), ("d", jvec M (duschD a Lf sm ri rf)),
+      ("delta", jvec M (duschDelta a M Lf sm ri rf linv))]
+  | "train.marginals" => some do
+    match marginalsShape (← getNat j "lenMu") (← getNat j "rows") (← getNat j "cols") (← getInt j "nMax") with
+    | .error e => pure <| Json.mkObj [("err", Json.str (match e with
+        | .notSquare => "notSquare" | .lenMismatch => "lenMismatch" | .nMax => "nMax"))]
+    | .ok (nm, nx) => pure <| Json.mkObj [("ok", Json.mkObj [("shape", natList [nm, nx]),
+        ("calls", jarr ((marginalCalls nm nx).map fun p => natList [p.1, p.2])),
+        ("idx", jarr ((List.range nm).map fun mode => natList (reducedIdx nm mode)))])]
   | "train.orbit" => some do
     let orbit ← getNatList j "orbit"
     let modes ← getNat j "modes"
